@@ -832,7 +832,12 @@ void RunReal(const Params& p, Outcome& o, int source_override = -1) {
         break;
       case kRun:
         if (p.run_variant == 1 && source_override < 0) {
-          Extend(yaclib::AsyncContract<int, TErr>(c.ex[se], [](yaclib::Promise<int, TErr> pr) { std::move(pr).Set(1); }), c);
+          // the functor's Tracked capture is used after Set: the functor must stay alive while it runs even if the
+          // fulfilled state is consumed and released meanwhile
+          Extend(yaclib::AsyncContract<int, TErr>(c.ex[se], [g = vf::Guard{}](yaclib::Promise<int, TErr> pr) {
+            std::move(pr).Set(1);
+            g.Use();
+          }), c);
         } else {
           Extend(yaclib::Run<TErr>(c.ex[se], [] { return 1; }), c);
         }
@@ -866,7 +871,10 @@ void RunReal(const Params& p, Outcome& o, int source_override = -1) {
         Extend(yaclib::Schedule<TErr>(yaclib::MakeInline(yaclib::StopTag{}), [] { return 1; }), c);
         break;
       case kLazyContract:
-        Extend(yaclib::LazyContract<int, TErr>([](yaclib::Promise<int, TErr> pr) { std::move(pr).Set(1); }), c);
+        Extend(yaclib::LazyContract<int, TErr>([g = vf::Guard{}](yaclib::Promise<int, TErr> pr) {
+          std::move(pr).Set(1);
+          g.Use();  // (see AsyncContract above; here the consumers are always attached before the functor runs)
+        }), c);
         break;
       default:
         Extend(yaclib::Schedule<TErr>(c.ex[se], [] { return 1; }), c);
